@@ -278,10 +278,17 @@ def seq_slice(ip, seq, lo, hi):
     length = z3.If(hi_t > lo_t, hi_t - lo_t, z3.IntVal(0))
     lo_s = z3.simplify(lo_t)
     if z3.is_int_value(lo_s) and lo_s.as_long() == 0:
-        return SymSeq(wrap(length), list(seq.arrs), seq.shape)
-    arrs = [defined_array(ip, ("slice", a.get_id(), lo_s.get_id()), a.sort(),
-                          lambda k, a=a: a[k + lo_s]) for a in seq.arrs]
-    return SymSeq(wrap(length), arrs, seq.shape)
+        res = SymSeq(wrap(length), list(seq.arrs), seq.shape)
+    else:
+        arrs = [defined_array(ip, ("slice", a.get_id(), lo_s.get_id()), a.sort(),
+                              lambda k, a=a: a[k + lo_s]) for a in seq.arrs]
+        res = SymSeq(wrap(length), arrs, seq.shape)
+    # provenance (used by abstract views of index tuples) and index stamps
+    res.slice_base = getattr(seq, "slice_base", seq.arrs[0])
+    res.slice_lo = z3.simplify(getattr(seq, "slice_lo", z3.IntVal(0)) + lo_s)
+    if hasattr(seq, "stamp"):
+        res.stamp = seq.stamp
+    return res
 
 
 class SymIter:
